@@ -70,7 +70,18 @@ pub const MUTATOR_NAMES: [&str; 7] = [
 pub fn build_generator(cfg: &Cfg, seed: Option<u64>) -> Generator {
     let version = Version::try_from(cfg.p).expect("protocol 0..5");
     let mut g = if cfg.alt_builder {
-        Generator::new(version).with_max_opcodes(cfg.max).with_min_opcodes(cfg.min)
+        // builder history: every option is first set to something else, then to its final value
+        // through the one-at-a-time methods; the LAST call per option is the configuration
+        Generator::new(version)
+            .with_opcode_range(cfg.max + 7, cfg.min + 3)
+            .with_mutation_rate(1.0 - cfg.rate.clamp(0.0, 1.0))
+            .with_unsafe_mutations(!cfg.unsafe_)
+            .with_ext_opcodes(!cfg.ext)
+            .with_buffer_opcodes(!cfg.buf)
+            .with_mutators(vec![mutator_kind("boundary").unwrap().create(!cfg.mut_unsafe)])
+            .with_mutators(Vec::new())
+            .with_max_opcodes(cfg.max)
+            .with_min_opcodes(cfg.min)
     } else {
         Generator::new(version).with_opcode_range(cfg.min, cfg.max)
     };
